@@ -43,6 +43,8 @@ TLeaf == LET isoc == TopK.e.op = "oconst" IN
          /\ LeafW(IF isoc THEN [ok |-> EvAt(l + 1).ok, v |-> EvAt(l + 1).v] ELSE NoCv)
          /\ IF isoc
             THEN /\ EvAt(l).ev = "match" /\ EvAt(l + 1).ev = "const" /\ l' = l + 2        \* constant(): trace_match, then the evaluation
+            ELSE IF TopK.e.op = "constbad"
+            THEN EvAt(l).ev = "match" /\ l' = l + 1         \* constant() logs the literal before evaluating it (the evaluation then fails)
             ELSE IF TopK.e.op \in MatchOps
             THEN /\ EvAt(l).ev = "match"
                  /\ EvAt(l).ok = (ret'.k = "ok")
